@@ -56,7 +56,7 @@ func checkC22(r *Run) {
 	outIdent := map[string]int{}
 	nOut := 0
 	produce := func(ctx execution.ProduceContext, rec execution.Record) error {
-		r.Log("  out %s", Msg{Kind: MsgRec, Values: rec.Values, Retr: rec.Retraction, ET: rec.EventTime})
+		r.SinkLog("  out %s", Msg{Kind: MsgRec, Values: rec.Values, Retr: rec.Retraction, ET: rec.EventTime})
 		nOut++
 		id := recIdentity(rec.Values, rec.Retraction, rec.EventTime)
 		outIdent[id]++
@@ -72,7 +72,7 @@ func checkC22(r *Run) {
 		return nil
 	}
 	metaSend := func(ctx execution.ProduceContext, msg execution.MetadataMessage) error {
-		r.Log("  out wm(%s)", Sec(msg.Watermark))
+		r.SinkLog("  out wm(%s)", Sec(msg.Watermark))
 		nOut++
 		want := consolidateUpTo(delivered, msg.Watermark, false)
 		if d := emitted.Diff(want); d != "" {
